@@ -48,6 +48,8 @@ const (
 	iMacroDecl   // {% macro Name %}…{% end %} in the main file (a function literal of main)
 	iCallMacro   // {{ Name() }}
 	iRender      // {{ render "path" }}
+	iShowConst   // shows a name that is NOT the global here (shadowed / another file's variable): always n
+	iShadow      // a block in which a local named like the global v shadows it (form: ifvar | for | goblock)
 )
 
 const (
@@ -67,6 +69,8 @@ type item struct {
 	tag  int    // show
 	name string // local / closure variable
 	fn   *fnSpec
+	form string  // iShadow
+	body []*item // iShadow: show/set/showConst items only
 }
 
 type fnSpec struct {
@@ -77,6 +81,8 @@ type fnSpec struct {
 	parent *fnSpec
 	body   []*item
 	goCtx  bool
+	param  string // a macro parameter named like a global (calls pass 500)
+	pkg    int    // the package (file) the function is emitted in; 0 = the main file
 }
 
 type pkgVar struct {
@@ -86,7 +92,15 @@ type pkgVar struct {
 	noInit bool // `var Y int`: no initializer, always shows 0
 }
 
+// a package-level variable of a file whose name is the name of a declared global
+type clashVar struct {
+	name string
+	tag  int
+}
+
 type fileSpec struct {
+	pkg      int
+	clash    []clashVar
 	path     string
 	macros   []*fnSpec
 	vars     []pkgVar
@@ -105,6 +119,8 @@ type spec struct {
 	nextID   int
 	nextTag  int
 	tooBig   bool
+	// some imported/extending file declares the exported variable W0 (at most one does)
+	exportedClash bool
 }
 
 type initVal struct {
@@ -116,12 +132,15 @@ type initVal struct {
 // generation
 
 type gen struct {
-	r  *proto.Rand
-	sp *spec
+	r       *proto.Rand
+	sp      *spec
+	exclude map[string]bool // names that do not denote the global where code is being generated
+	pkg     int
+	nextPkg int
 }
 
 func (g *gen) newFn(kind int, name string, parent *fnSpec, goCtx bool) *fnSpec {
-	f := &fnSpec{id: g.sp.nextID, kind: kind, name: name, parent: parent, goCtx: goCtx}
+	f := &fnSpec{id: g.sp.nextID, kind: kind, name: name, parent: parent, goCtx: goCtx, pkg: g.pkg}
 	g.sp.nextID++
 	return f
 }
@@ -131,6 +150,10 @@ func (g *gen) tag() int { g.sp.nextTag++; return g.sp.nextTag }
 // varItem makes a show or set item on a random variable.
 func (g *gen) varItem(kind int) *item {
 	v := g.pickVar()
+	if v == "" {
+		// every declared name is shadowed here: show one of the shadowing variables instead
+		return g.constItem()
+	}
 	it := &item{kind: kind, v: v, vt: g.sp.vtype[v]}
 	if kind == iShow {
 		it.tag = g.tag()
@@ -144,7 +167,7 @@ func (g *gen) varItem(kind int) *item {
 func (g *gen) pickPlain() (string, bool) {
 	var c []string
 	for _, v := range g.sp.declared {
-		if t := g.sp.vtype[v]; t == "" || t == "myInt" {
+		if t := g.sp.vtype[v]; (t == "" || t == "myInt") && !g.exclude[v] {
 			c = append(c, v)
 		}
 	}
@@ -154,9 +177,45 @@ func (g *gen) pickPlain() (string, bool) {
 	return c[g.r.Intn(len(c))], true
 }
 
+// constItem shows a name that, here, is not the global of that name.
+func (g *gen) constItem() *item {
+	var names []string
+	for _, v := range g.sp.declared {
+		if g.exclude[v] {
+			names = append(names, v)
+		}
+	}
+	if len(names) == 0 {
+		return &item{kind: iLocal, name: fmt.Sprintf("a%d", g.tag())}
+	}
+	return &item{kind: iShowConst, v: names[g.r.Intn(len(names))], n: 500, tag: g.tag()}
+}
+
+// with runs f with more names excluded.
+func (g *gen) with(names []string, f func()) {
+	old := g.exclude
+	g.exclude = map[string]bool{}
+	for k := range old {
+		g.exclude[k] = true
+	}
+	for _, n := range names {
+		g.exclude[n] = true
+	}
+	f()
+	g.exclude = old
+}
+
 func (g *gen) pickVar() string {
 	// biased to the first variables so that several references meet on one variable
-	d := g.sp.declared
+	var d []string
+	for _, v := range g.sp.declared {
+		if !g.exclude[v] {
+			d = append(d, v)
+		}
+	}
+	if len(d) == 0 {
+		return ""
+	}
 	if g.r.Intn(3) > 0 {
 		return d[0]
 	}
@@ -178,12 +237,37 @@ func (g *gen) body(f *fnSpec, sc scope, depth, n int) {
 		if f.kind == fMain && g.r.Intn(4) == 0 {
 			// a macro of the main file: a function literal of main; it sees the macros before it
 			m := g.newFn(fMacroLit, fmt.Sprintf("L%d", g.tag()), f, false)
-			g.body(m, scope{macros: append([]*fnSpec(nil), sc.macros...), renders: sc.renders}, 1, 1+g.r.Intn(5))
+			g.macroBody(m, scope{macros: append([]*fnSpec(nil), sc.macros...), renders: sc.renders}, 1+g.r.Intn(5))
 			f.body = append(f.body, &item{kind: iMacroDecl, fn: m})
 			sc.macros = append(sc.macros, m)
 			if g.r.Intn(5) > 0 {
 				f.body = append(f.body, &item{kind: iCallMacro, fn: m})
 			}
+			continue
+		}
+		if v := g.pickVar(); v != "" && g.r.Intn(14) == 0 {
+			// a block with a local named like the global: the references inside are not the global's
+			sh := &item{kind: iShadow, v: v, form: []string{"ifvar", "for"}[g.r.Intn(2)]}
+			if f.goCtx {
+				sh.form = "goblock"
+			}
+			g.with([]string{v}, func() {
+				for j := 0; j < 1+g.r.Intn(3); j++ {
+					switch g.r.Intn(3) {
+					case 0:
+						sh.body = append(sh.body, g.constItem())
+					case 1:
+						sh.body = append(sh.body, g.varItem(iShow))
+					default:
+						sh.body = append(sh.body, g.varItem(iSet))
+					}
+				}
+			})
+			f.body = append(f.body, sh)
+			continue
+		}
+		if len(g.exclude) > 0 && g.r.Intn(6) == 0 {
+			f.body = append(f.body, g.constItem())
 			continue
 		}
 		switch {
@@ -223,15 +307,54 @@ func (g *gen) body(f *fnSpec, sc scope, depth, n int) {
 	}
 }
 
+// macroBody generates the body of a macro, now and then with a parameter named like a global.
+func (g *gen) macroBody(m *fnSpec, sc scope, n int) {
+	if v := g.pickVar(); v != "" && g.r.Intn(6) == 0 {
+		m.param = v
+		g.with([]string{v}, func() {
+			g.body(m, sc, 1, n)
+			m.body = append(m.body, g.constItem())
+		})
+		return
+	}
+	g.body(m, sc, 1, n)
+}
+
 func (g *gen) file(path string, depth int) *fileSpec {
-	fl := &fileSpec{path: path}
+	g.nextPkg++
+	fl := &fileSpec{path: path, pkg: g.nextPkg}
+	oldPkg := g.pkg
+	defer func() { g.pkg = oldPkg }()
 	if depth < 1 && g.r.Intn(4) == 0 {
 		fl.imports = append(fl.imports, g.file(strings.TrimSuffix(path, ".txt")+"x.txt", depth+1))
 	}
+	g.pkg = fl.pkg
 	var callable []*fnSpec
 	for _, im := range fl.imports {
 		callable = append(callable, im.macros...)
 	}
+	// package-level variables named like declared globals (lower-case names stay private to the file)
+	var clashNames []string
+	if g.r.Intn(3) == 0 {
+		for _, v := range g.sp.declared {
+			if g.r.Intn(2) == 0 && !(v == "W0" && (g.sp.exportedClash || depth > 0)) {
+				fl.clash = append(fl.clash, clashVar{name: v, tag: g.tag()})
+				clashNames = append(clashNames, v)
+				if v == "W0" {
+					g.sp.exportedClash = true
+				}
+			}
+		}
+	}
+	oldEx := g.exclude
+	g.exclude = map[string]bool{}
+	for k := range oldEx {
+		g.exclude[k] = true
+	}
+	for _, n := range clashNames {
+		g.exclude[n] = true
+	}
+	defer func() { g.exclude = oldEx }()
 	if pv, ok := g.pickPlain(); ok && g.r.Intn(4) == 0 {
 		fl.initVars = g.newFn(fInitVars, "$initvars", nil, false)
 		for i := 0; i < 1+g.r.Intn(2); i++ {
@@ -240,7 +363,7 @@ func (g *gen) file(path string, depth int) *fileSpec {
 	}
 	for i := 0; i < 1+g.r.Intn(3); i++ {
 		m := g.newFn(fPkgMacro, fmt.Sprintf("M%d", g.tag()), nil, false)
-		g.body(m, scope{macros: callable}, 1, 1+g.r.Intn(4))
+		g.macroBody(m, scope{macros: callable}, 1+g.r.Intn(4))
 		// show the package variables somewhere
 		for _, pv := range fl.vars {
 			if g.r.Intn(2) == 0 {
@@ -263,17 +386,39 @@ func generate(r *proto.Rand) *spec {
 		// the variable's type: int, a named type, an interface (empty and named), a pointer type
 		sp.vtype[v] = []string{"", "", "", "", "any", "any", "myInt", "myInt", "shower", "ptr"}[r.Intn(10)]
 	}
+	if r.Intn(3) == 0 {
+		// a global with an exported-looking name: a file that declares `var W0` and is imported
+		// shadows it in the importing file
+		sp.declared = append(sp.declared, "W0")
+	}
 	sp.main = g.newFn(fMain, "main", nil, false)
 	var callable []*fnSpec
 	if r.Intn(4) == 0 {
 		sp.mainPath = "layout.txt"
-		sp.extends = &fileSpec{path: "index.txt"}
-		for i := 0; i < 1+r.Intn(3); i++ {
-			m := g.newFn(fPkgMacro, fmt.Sprintf("E%d", g.tag()), nil, false)
-			g.body(m, scope{macros: append([]*fnSpec(nil), callable...)}, 1, 1+r.Intn(4))
-			sp.extends.macros = append(sp.extends.macros, m)
-			callable = append(callable, m)
+		g.nextPkg++
+		sp.extends = &fileSpec{path: "index.txt", pkg: g.nextPkg}
+		g.pkg = sp.extends.pkg
+		var clashNames []string
+		if r.Intn(3) == 0 {
+			for _, v := range sp.declared {
+				if r.Intn(2) == 0 {
+					sp.extends.clash = append(sp.extends.clash, clashVar{name: v, tag: g.tag()})
+					clashNames = append(clashNames, v)
+					if v == "W0" {
+						sp.exportedClash = true
+					}
+				}
+			}
 		}
+		g.with(clashNames, func() {
+			for i := 0; i < 1+r.Intn(3); i++ {
+				m := g.newFn(fPkgMacro, fmt.Sprintf("E%d", g.tag()), nil, false)
+				g.macroBody(m, scope{macros: append([]*fnSpec(nil), callable...)}, 1+r.Intn(4))
+				sp.extends.macros = append(sp.extends.macros, m)
+				callable = append(callable, m)
+			}
+		})
+		g.pkg = 0
 	}
 	for i := 0; i < r.Intn(3); i++ {
 		fl := g.file(fmt.Sprintf("imp%d.txt", i), 0)
@@ -281,12 +426,35 @@ func generate(r *proto.Rand) *spec {
 		callable = append(callable, fl.macros...)
 	}
 	for i := 0; i < r.Intn(3); i++ {
+		g.nextPkg++
+		g.pkg = g.nextPkg
 		f := g.newFn(fRendered, "", nil, false)
 		f.path = fmt.Sprintf("r%d.txt", i)
 		g.body(f, scope{}, 1, 1+r.Intn(4))
 		sp.rendered = append(sp.rendered, f)
 	}
-	g.body(sp.main, scope{macros: callable, renders: sp.rendered}, 0, 2+r.Intn(8))
+	g.pkg = 0
+	// an exported variable of a file the main file imports (or is extended by) shadows the global there
+	var mainEx []string
+	if sp.exportedClash {
+		direct := false
+		for _, im := range sp.imports {
+			for _, c := range im.clash {
+				direct = direct || c.name == "W0"
+			}
+		}
+		if sp.extends != nil {
+			for _, c := range sp.extends.clash {
+				direct = direct || c.name == "W0"
+			}
+		}
+		if direct {
+			mainEx = []string{"W0"}
+		}
+	}
+	g.with(mainEx, func() {
+		g.body(sp.main, scope{macros: callable, renders: sp.rendered}, 0, 2+r.Intn(8))
+	})
 	return sp
 }
 
@@ -365,8 +533,28 @@ func renderGo(b *strings.Builder, body []*item) {
 			fmt.Fprintf(b, " }; _ = %s", it.name)
 		case iCallClosure:
 			fmt.Fprintf(b, "%s()", it.name)
+		case iShowConst:
+			fmt.Fprintf(b, "emit(%d, %s)", it.tag, it.v)
+		case iShadow:
+			fmt.Fprintf(b, "{ %s := 500; _ = %s; ", it.v, it.v)
+			renderGo(b, it.body)
+			b.WriteString(" }")
 		}
 	}
+}
+
+func macroSig(m *fnSpec) string {
+	if m.param != "" {
+		return fmt.Sprintf("%s(%s int)", m.name, m.param)
+	}
+	return m.name
+}
+
+func macroArg(m *fnSpec) string {
+	if m.param != "" {
+		return "500"
+	}
+	return ""
 }
 
 func renderTmpl(b *strings.Builder, body []*item) {
@@ -387,12 +575,22 @@ func renderTmpl(b *strings.Builder, body []*item) {
 			fmt.Fprintf(b, " } %%}{%% _ = %s %%}", it.name)
 		case iCallClosure:
 			fmt.Fprintf(b, "{%% %s() %%}", it.name)
+		case iShowConst:
+			fmt.Fprintf(b, "[T%d={{ %s }}]", it.tag, it.v)
+		case iShadow:
+			if it.form == "for" {
+				fmt.Fprintf(b, "{%% for _, %s := range []int{500} %%}{%% _ = %s %%}", it.v, it.v)
+			} else {
+				fmt.Fprintf(b, "{%% if true %%}{%% var %s = 500 %%}{%% _ = %s %%}", it.v, it.v)
+			}
+			renderTmpl(b, it.body)
+			b.WriteString("{% end %}")
 		case iMacroDecl:
-			fmt.Fprintf(b, "{%% macro %s %%}", it.fn.name)
+			fmt.Fprintf(b, "{%% macro %s %%}", macroSig(it.fn))
 			renderTmpl(b, it.fn.body)
 			b.WriteString("{% end %}")
 		case iCallMacro:
-			fmt.Fprintf(b, "{{ %s() }}", it.fn.name)
+			fmt.Fprintf(b, "{{ %s(%s) }}", it.fn.name, macroArg(it.fn))
 		case iRender:
 			fmt.Fprintf(b, "{{ render %q }}", it.fn.path)
 		}
@@ -415,8 +613,11 @@ func (fl *fileSpec) source(files map[string]string, extending string) {
 			fmt.Fprintf(&b, "{%% var %s = %s %%}", pv.name, pv.v)
 		}
 	}
+	for _, cv := range fl.clash {
+		fmt.Fprintf(&b, "{%% var %s = 500 %%}", cv.name)
+	}
 	for _, m := range fl.macros {
-		fmt.Fprintf(&b, "{%% macro %s %%}", m.name)
+		fmt.Fprintf(&b, "{%% macro %s %%}", macroSig(m))
 		renderTmpl(&b, m.body)
 		b.WriteString("{% end %}")
 	}
@@ -479,24 +680,30 @@ func (sp *spec) upvars(f *fnSpec) []string {
 				ups = append(ups, tok)
 			}
 		}
-		for _, it := range fn.body {
-			switch it.kind {
-			case iShow, iSet:
-				if sp.isDeclared(it.v) {
-					add("P"+it.v, "P "+it.v)
+		var items func(body []*item)
+		items = func(body []*item) {
+			for _, it := range body {
+				switch it.kind {
+				case iShow, iSet:
+					if sp.isDeclared(it.v) {
+						add("P"+it.v, "P "+it.v)
+					}
+				case iShadow:
+					items(it.body)
+				case iTouch, iCallClosure:
+					if !local(it.name) {
+						add("L"+it.name, "L "+it.name)
+					}
+				case iCallMacro:
+					if it.fn.kind == fMacroLit && !local(it.fn.name) {
+						add("L"+it.fn.name, "L "+it.fn.name)
+					}
+				case iClosure:
+					walk(it.fn, append(inner, it.fn))
 				}
-			case iTouch, iCallClosure:
-				if !local(it.name) {
-					add("L"+it.name, "L")
-				}
-			case iCallMacro:
-				if it.fn.kind == fMacroLit && !local(it.fn.name) {
-					add("L"+it.fn.name, "L")
-				}
-			case iClosure:
-				walk(it.fn, append(inner, it.fn))
 			}
 		}
+		items(fn.body)
 	}
 	walk(f, []*fnSpec{f})
 	return ups
@@ -527,52 +734,68 @@ func (sp *spec) events() []string {
 	rendered := map[*fnSpec]bool{}
 	var bodyEvents func(f *fnSpec)
 	bodyEvents = func(f *fnSpec) {
-		for _, it := range f.body {
-			switch it.kind {
-			case iRender:
-				// a rendered file is emitted where it is first rendered
-				if !rendered[it.fn] {
-					rendered[it.fn] = true
-					ev = append(ev, fmt.Sprintf("d %d", it.fn.id))
+		var items func(body []*item)
+		items = func(body []*item) {
+			for _, it := range body {
+				switch it.kind {
+				case iRender:
+					// a rendered file is emitted where it is first rendered
+					if !rendered[it.fn] {
+						rendered[it.fn] = true
+						ev = append(ev, fmt.Sprintf("d %d %d", it.fn.id, it.fn.pkg))
+						bodyEvents(it.fn)
+					}
+				case iShow, iSet:
+					if sp.isDeclared(it.v) {
+						ev = append(ev, fmt.Sprintf("u %d %s", f.id, it.v))
+					}
+				case iShadow:
+					items(it.body)
+				case iClosure, iMacroDecl:
+					ups := sp.upvars(it.fn)
+					ev = append(ev, fmt.Sprintf("c %d %d %d %s", f.id, it.fn.id, len(ups), strings.Join(ups, " ")))
 					bodyEvents(it.fn)
 				}
-			case iShow, iSet:
-				if sp.isDeclared(it.v) {
-					ev = append(ev, fmt.Sprintf("u %d %s", f.id, it.v))
-				}
-			case iClosure, iMacroDecl:
-				ups := sp.upvars(it.fn)
-				ev = append(ev, fmt.Sprintf("c %d %d %d %s", f.id, it.fn.id, len(ups), strings.Join(ups, " ")))
-				bodyEvents(it.fn)
 			}
 		}
+		items(f.body)
 	}
-	var fileEvents func(fl *fileSpec)
-	fileEvents = func(fl *fileSpec) {
+	var fileEvents func(fl *fileSpec, importer int)
+	fileEvents = func(fl *fileSpec, importer int) {
 		for _, im := range fl.imports {
-			fileEvents(im)
+			fileEvents(im, fl.pkg)
 		}
 		for _, m := range fl.macros {
-			ev = append(ev, fmt.Sprintf("d %d", m.id))
+			ev = append(ev, fmt.Sprintf("d %d %d", m.id, fl.pkg))
 		}
+		var names []string
 		if fl.initVars != nil {
-			ev = append(ev, fmt.Sprintf("d %d", fl.initVars.id))
+			ev = append(ev, fmt.Sprintf("d %d %d", fl.initVars.id, fl.pkg))
 			for _, pv := range fl.vars {
-				ev = append(ev, "x "+pv.name)
+				ev = append(ev, fmt.Sprintf("x %d %s", fl.pkg, pv.name))
+				names = append(names, pv.name)
 				if !pv.noInit {
 					ev = append(ev, fmt.Sprintf("u %d %s", fl.initVars.id, pv.v))
 				}
 			}
 		}
+		for _, cv := range fl.clash {
+			ev = append(ev, fmt.Sprintf("x %d %s", fl.pkg, cv.name))
+			names = append(names, cv.name)
+		}
 		for _, m := range fl.macros {
 			bodyEvents(m)
 		}
+		// emitImport binds every package variable of the file, by name, in the importing package
+		for _, n := range names {
+			ev = append(ev, fmt.Sprintf("b %d %d %s", importer, fl.pkg, n))
+		}
 	}
 	if sp.extends != nil {
-		fileEvents(sp.extends)
+		fileEvents(sp.extends, 0)
 	}
 	for _, im := range sp.imports {
-		fileEvents(im)
+		fileEvents(im, 0)
 	}
 	bodyEvents(sp.main)
 	return ev
@@ -609,13 +832,17 @@ func (sp *spec) actions() []action {
 	}
 	budget := 400
 	var run func(f *fnSpec)
-	run = func(f *fnSpec) {
-		for _, it := range f.body {
+	var runItems func(f *fnSpec, body []*item)
+	run = func(f *fnSpec) { runItems(f, f.body) }
+	runItems = func(f *fnSpec, body []*item) {
+		for _, it := range body {
 			if budget <= 0 {
 				sp.tooBig = true
 				return
 			}
 			switch it.kind {
+			case iShadow:
+				runItems(f, it.body)
 			case iShow:
 				if sp.isDeclared(it.v) {
 					budget--
@@ -637,13 +864,17 @@ func (sp *spec) actions() []action {
 func (sp *spec) occurring() []string {
 	set := map[string]bool{}
 	var walk func(f *fnSpec)
-	walk = func(f *fnSpec) {
-		for _, it := range f.body {
+	var walkItems func(body []*item)
+	walk = func(f *fnSpec) { walkItems(f.body) }
+	walkItems = func(body []*item) {
+		for _, it := range body {
 			switch it.kind {
 			case iShow, iSet:
 				if sp.isDeclared(it.v) {
 					set[it.v] = true
 				}
+			case iShadow:
+				walkItems(it.body)
 			case iClosure, iMacroDecl:
 				walk(it.fn)
 			}
@@ -716,6 +947,23 @@ func (sp *spec) zeroTags(shown map[int][]int, initTag map[int]bool) {
 			initTag[pv.tag] = true
 			shown[pv.tag] = []int{0}
 		}
+	}
+	// names that are not the global where they are shown (shadowing locals, parameters, loop
+	// variables, other files' package variables): always their own value
+	var items func(body []*item)
+	items = func(body []*item) {
+		for _, it := range body {
+			switch it.kind {
+			case iShowConst:
+				initTag[it.tag] = true
+				shown[it.tag] = []int{it.n}
+			case iShadow:
+				items(it.body)
+			}
+		}
+	}
+	for _, f := range sp.allBodies() {
+		items(f.body)
 	}
 }
 
@@ -1360,7 +1608,7 @@ func randomInit(r *proto.Rand, sp *spec, allowBad bool) map[string]initVal {
 
 func runC17(c *hx.Ctx) error {
 	res := c.Res
-	res.Rule = "generated template sets (main file; macros of the main file; function literals nested up to depth 3 with captured locals; imported files with macros, package variables and one nested import; extending and rendered files) over 1-4 globals declared without value of type int, a named integer type, any, a named interface, or *int (pointers to interface values and to pointers included; a plain value where only a pointer to an interface fits among the invalid ones), each built once and run with 3 random vars maps (value / pointer / absent, a few invalid); plus 7 fixed cases (the two defects found and their variants) under 4 maps each. A case is non-trivial when at least two different functions refer to the same variable; distinct by sources+vars"
+	res.Rule = "generated template sets (main file; macros of the main file; function literals nested up to depth 3 with captured locals; imported files with macros, package variables and one nested import; extending and rendered files) over 1-4 globals declared without value of type int, a named integer type, any, a named interface, or *int (pointers to interface values and to pointers included; a plain value where only a pointer to an interface fits among the invalid ones), each built once and run with 3 random vars maps (value / pointer / absent, a few invalid); with package-level variables of imported/extending files named like declared globals (unexported, and one exported that shadows the global in the importing file), blocks, loop variables and macro parameters named like a global; plus 7 fixed cases (the two defects found and their variants) under 4 maps each. A case is non-trivial when at least two different functions refer to the same variable; distinct by sources+vars"
 	if os.Getenv("VERIF_REPO") != "" {
 		res.Notes = append(res.Notes, "built against "+filepath.Clean(os.Getenv("VERIF_REPO")))
 	}
@@ -1439,6 +1687,42 @@ func runC17(c *hx.Ctx) error {
 		}
 		if len(sp.rendered) > 0 {
 			res.Hist("with-render")
+		}
+		nClash, nShadow, nParam := 0, 0, 0
+		var cnt func(fl *fileSpec)
+		cnt = func(fl *fileSpec) {
+			nClash += len(fl.clash)
+			for _, im := range fl.imports {
+				cnt(im)
+			}
+		}
+		if sp.extends != nil {
+			cnt(sp.extends)
+		}
+		for _, im := range sp.imports {
+			cnt(im)
+		}
+		for _, f := range sp.allBodies() {
+			if f.param != "" {
+				nParam++
+			}
+			for _, it := range f.body {
+				if it.kind == iShadow {
+					nShadow++
+				}
+			}
+		}
+		if nClash > 0 {
+			res.Hist("with-package-var-named-like-a-global")
+		}
+		if sp.exportedClash {
+			res.Hist("with-exported-package-var-shadowing-a-global")
+		}
+		if nShadow > 0 {
+			res.Hist("with-shadowing-block-or-loop-variable")
+		}
+		if nParam > 0 {
+			res.Hist("with-macro-parameter-named-like-a-global")
 		}
 		if !valid(sp, init) {
 			res.Hist("invalid-initializer")
